@@ -31,7 +31,7 @@ RULE = ("schedules of 1-8 queued requests (GET/POST with bodies, unique path and
         "redirect Locations re-assign none / some / all of the keys, also over multi-hop chains; requests queued through Client.request WITHOUT qargs (default = copy of the requester's) with and without "
         "a query in their path, several queued before the earlier one is built; payload kinds per request (data= JSON, fargs= form, body= bytes, none) on "
         "GET/POST/PUT/PATCH/DELETE with explicit or default headers; reconnectable connectors (reconnect timer 1-12 passes of virtual "
-        "time) against servers that close after replies, requests queued and popped during the cutoff, redirects followed across a close; in ~45% of the cases the answers are consumed through Client.respond() "
+        "time) against servers that close after replies, requests queued and popped during the cutoff, redirects followed across a close; in ~45% of the cases the answers are consumed through Client.respond(); replies optionally preceded by an interim 100 Continue (bare or with a header, same segment or earlier) "
         "(after every pass / only at the end / in bursts).  A case is non-trivial when >= 3 requests were queued and some reply was delayed, "
         "fragmented or a redirect")
 MODELLED = ["response parsing (real Respondent) is abstracted to 'a complete reply with status s and Location l was "
@@ -123,9 +123,16 @@ class FakeSock:
             self.net.k += 1
             r = self.net.replies[k] if k < len(self.net.replies) else {"status": 200}
             data = render_reply(k, r, verb)
+            d = r.get("delay", 0)
+            # interim 100 Continue before the final response: bare or with a header; in the same segment or earlier
+            pre = {"bare": b"HTTP/1.1 100 Continue\r\n\r\n", "hdr": b"HTTP/1.1 100 Continue\r\nX-Note: wait\r\n\r\n"}.get(r.get("interim"), b"")
+            if pre and r.get("interim_early"):
+                self.pending.append([d, pre])
+                d += 1
+            else:
+                data = pre + data
             nf = max(1, min(r.get("frags", 1), len(data)))
             step = -(-len(data) // nf)
-            d = r.get("delay", 0)
             for j in range(0, len(data), step):
                 self.pending.append([d, data[j:j + step]])
                 d += 1
@@ -706,6 +713,10 @@ def directed():
         # Client.request WITHOUT qargs, several queued before anything is built, earlier paths carry a query
         {"events": [["enq", 1, "GET", "none", [[0, 1]]], ["enq", 2, "GET", "none"], ["enq", 3, "GET", "none", [[1, 2]]], ["enq", 4, "GET", "none"]],
          "replies": [{}, {}, {}, {}]},
+        # interim 100 Continue responses (bare / with a header; same segment / earlier) are skipped, also twice in a row
+        {"events": _sched([1, 2, 3]), "replies": [{"interim": "bare"}, {"interim": "hdr", "interim_early": True, "status": 404}, {"interim": "bare", "interim_early": True, "frags": 2}]},
+        {"events": [["enq", 1, "POST", [], [], "data", True], ["enq", 2, "HEAD"], ["enq", 3, "GET"]],
+         "replies": [{"interim": "bare", "status": 302, "loc": rel}, {"interim": "bare", "framing": "chunked"}, {"interim": "hdr"}, {"interim": "bare", "delay": 2}]},
         # the public accessor Client.respond(): after every pass / only at the end / in bursts
         {"take": "each", "events": _sched([1, 2, 3]), "replies": [{}, {"delay": 2}, {}]},
         {"take": "end", "events": _sched([1, 2, 3, 4]), "replies": [{}, {"status": 302, "loc": rel}, {}, {"status": 404}, {}]},
@@ -791,6 +802,10 @@ def gen_case(rng):
             r["close"] = True
         if rng.random() < 0.2:
             r["blen"] = rng.choice([0, 3, 40])
+        if rng.random() < 0.2:
+            r["interim"] = rng.choice(["bare", "bare", "hdr"])
+            if rng.random() < 0.5:
+                r["interim_early"] = True
         replies.append(r)
     case = {"events": events, "replies": replies, "drain": 12 + 6 * (len(replies) + n)}
     if https:
